@@ -35,6 +35,10 @@ Rules applied to extracted text (recorded in evidence as coverage.extraction.dro
  10d (opt-in, `unproject`) pin_project plumbing: `let this = self.project();` deleted, `*this.f`/`this.f` -> `self.f`,
     `this.f.as_mut()` -> `Pin::new(&mut self.f)`, `self.as_mut().project().f` -> `self.f`, `self.as_mut().m(` -> `self.m(`
  14 (opt-in, `unguard`) `match e { P if g => a, _ => b }` -> `match e { P => if g { a } else { b }, _ => b }`
+ 15 (opt-in, `sink_exit N flag=F`) in the N-th loop, the one statement `S;` that directly precedes a `break;` is moved
+    behind the loop: `let mut F = false; loop { .. F = true; break; .. } if F { S; }` (same program: nothing runs between
+    the `break` and the end of the loop).  Needed where S assigns a place whose pattern-borrowed fields are live loop
+    variables: Verus forgets the place at the loop head and its borrow checker rejects any invariant naming it.
  13 (opt-in, `emit_as X`) the function is emitted under the identifier X (same text verified against another part of its contract)
 """
 import hashlib
@@ -207,6 +211,7 @@ def build(template_path, repo, out_path, drop_tags=()):
             unproject = False
             unguard = False
             emit_as = None
+            sink = None
             closurespec = {}
             cur = contract
             i += 1
@@ -233,6 +238,11 @@ def build(template_path, repo, out_path, drop_tags=()):
                         oname = d[5:].strip()
                     elif d.startswith("emit_as "):
                         emit_as = d[8:].strip()
+                    elif d.startswith("sink_exit "):
+                        mm = re.match(r'sink_exit (\d+) flag=(\w+)$', d)
+                        if not mm:
+                            raise ExtractError(f"template {name}: malformed sink_exit directive `{s2}`")
+                        sink = (int(mm.group(1)), mm.group(2))
                     elif d.startswith("loop "):
                         f = d.split()
                         n = int(f[1])
@@ -542,6 +552,55 @@ def build(template_path, repo, out_path, drop_tags=()):
                     edits.append((ltoks[k].e, ltoks[k].e, f" {ls['it']}:"))
                     unit.drops["for_iterators_named"] += 1
                 edits.append((ltoks[lbo].s, ltoks[lbo].s, "\n" + "\n".join(ls["lines"]) + "\n"))
+            if sink:
+                # rule 15: see the module docstring
+                n, flag = sink
+                if n >= len(loops):
+                    raise ExtractError(f"anchor lost: `{path[-1]}` has {len(loops)} loops, sink_exit names loop {n}")
+                kwi, lbo = loops[n]
+                lcl = rslex.match_close(ltoks, lbo)
+                if any(t.k == "id" and t.t == flag for t in ltoks[bol:bcl]):
+                    raise ExtractError(f"rule 15: identifier `{flag}` already occurs in `{path[-1]}`")
+                inner = [(a, rslex.match_close(ltoks, b)) for (a, b) in loops if lbo < a < lcl]
+                hits = []
+                for k in range(lbo + 1, lcl - 1):
+                    if ltoks[k].k == "id" and ltoks[k].t == "break" and ltoks[k + 1].t == ";" and ltoks[k - 1].t == ";" \
+                            and not any(a < k < b for (a, b) in inner):
+                        # the statement before: back to the previous `;`, `{` or `}` at the same depth
+                        j = k - 2
+                        d = 0
+                        while j > lbo:
+                            tj = ltoks[j].t
+                            if tj in (")", "]", "}"):
+                                if tj == "}" and d == 0:
+                                    break
+                                d += 1
+                            elif tj in ("(", "[", "{"):
+                                if d == 0:
+                                    break
+                                d -= 1
+                            elif tj == ";" and d == 0:
+                                break
+                            j -= 1
+                        st = j + 1
+                        if st <= k - 2 and any(t.t == "=" for t in ltoks[st:k - 1]) \
+                                and not any(t.k == "id" and t.t in ("let", "return", "break", "continue") for t in ltoks[st:k - 1]):
+                            hits.append((st, k))
+                if len(hits) > 1:
+                    raise ExtractError(f"rule 15: loop {n} of `{path[-1]}` has {len(hits)} statements of the shape `place = e; break;`")
+                edits.append((ltoks[kwi].s, ltoks[kwi].s, f"let mut {flag} = false;\n"))
+                if hits:
+                    st, k = hits[0]
+                    # edits of other rules that fall inside the statement (e.g. the rule-10 rename) travel with it
+                    s0, s1 = ltoks[st].s, ltoks[k - 1].e
+                    inside = [e for e in edits if s0 <= e[0] and e[1] <= s1]
+                    edits = [e for e in edits if not (s0 <= e[0] and e[1] <= s1)]
+                    stmt = rslex.apply_edits(text[s0:s1], [(a - s0, b - s0, r) for (a, b, r) in inside])
+                    edits.append((s0, s1, f"{flag} = true;"))
+                    edits.append((ltoks[lcl].e, ltoks[lcl].e, f"\nif {flag} {{ {stmt} }}"))
+                # no such statement (the assignment was removed): nothing to sink; the flag stays false and the contract
+                # that mentions it decides
+                unit.drops["loop_exit_assignments_sunk"] = unit.drops.get("loop_exit_assignments_sunk", 0) + 1
             if closurespec:
                 # rule 12: the N-th closure expression of the body (in source order, tracing invocations excluded) gets
                 # typed parameters, a named return value and a contract: `|p| e`  ->
